@@ -215,7 +215,7 @@ func codecCheck(c *chk.Ctx, enforce string) {
 						back, ok := tree(unb64s(e["backB64"]))
 						ok = ok && e["decOk"] == true
 						add(map[string]any{"event": "Round", "src": src, "client": k == 2, "foreign": false, "ok": ok, "val": vt, "back": back,
-							"detail": firstN(fmt.Sprint(e["decErr"]), 200)})
+							"detail": firstN(fmt.Sprint(e["decErr"]), 200), "jsonText": firstN(string(unb64s(e["jsonB64"])), 600)})
 					case "CodecPanic":
 						add(map[string]any{"event": "Form", "src": src, "client": k == 2, "foreign": false, "want": k == 1, "ok": false, "val": vt, "json": nullTree,
 							"detail": "panic: " + firstN(fmt.Sprint(e["detail"]), 200)})
